@@ -17,11 +17,6 @@ from . import walker as W
 models = I.models
 
 
-def txn_comment_after_last_meta(v: core.Violation, sess: Any, op: Optional[dict]) -> bool:
-    return ('is item of Transaction._postings (0 non-comment item(s)); documented rules give: trailing comment of the MetaItem'
-            in v.msg)
-
-
 def number_comma_digit_hazard(v: core.Violation, sess: Any, op: Optional[dict]) -> bool:
     """A number token directly followed by ',' and a token starting with a digit:
     the text lexes as a thousands separator."""
@@ -60,7 +55,6 @@ def unindented_comment_in_block(v: core.Violation, sess: Any, op: Optional[dict]
 
 
 PREDICATES: dict[str, Callable[[core.Violation, Any, Optional[dict]], bool]] = {
-    'txn_comment_after_last_meta': txn_comment_after_last_meta,
     'number_comma_digit_hazard': number_comma_digit_hazard,
     'slash_number_currency_hazard': slash_number_currency_hazard,
     'unindented_comment_in_block': unindented_comment_in_block,
